@@ -11,6 +11,7 @@ compared inside Coq (vm_compute) with the model's tms_tilemap / wmts_matrix_set 
 wmsc_get_map.  Oracle (independent of the model): rectangle from the document == rectangle of the tile that was loaded.
 """
 from fractions import Fraction
+import io
 import json
 import math
 import os
@@ -55,8 +56,16 @@ SIG_F8_WMSC = 'wmsc:advertised-tile-refused-or-shifted(ul-unaligned-or-extent-di
 
 MERC = 20037508.342789244
 MPD = 111319.4907932736
-SRS_KIND = {3857: 'SrsMerc', 900913: 'SrsMerc', 4326: 'SrsGeod', 25832: 'SrsOther', 31467: 'SrsOther', 3035: 'SrsOther'}
-SRS_NE = {3857: False, 900913: False, 4326: True, 25832: False, 31467: True, 3035: True}
+SRS_KIND = {3857: 'SrsMerc', 900913: 'SrsMerc', 4326: 'SrsGeod', 25832: 'SrsOther', 31467: 'SrsOther', 3035: 'SrsOther',
+            2180: 'SrsOther', 3006: 'SrsOther', 4258: 'SrsOther', 4269: 'SrsOther', 2154: 'SrsOther', 32633: 'SrsOther'}
+# axis order of the CRS definitions (EPSG registry), written down independently of mapproxy: some are in mapproxy's configured
+# axis_order_ne / axis_order_en lists (4326, 4258, 31467 / 25832, 900913), the others are decided by PROJ (3035, 2180, 3006, 4269
+# north/east; 3857, 2154, 32633 east/north)
+SRS_NE = {3857: False, 900913: False, 4326: True, 25832: False, 31467: True, 3035: True,
+          2180: True, 3006: True, 4258: True, 4269: True, 2154: False, 32633: False}
+LATLONG = (4326, 4258, 4269)
+PROJECTED_OFFSET = {31467: (3400000, 5500000), 25832: (400000, 5500000), 3035: (4200000, 3100000), 2180: (500000, 400000),
+                    3006: (500000, 6500000), 2154: (600000, 6500000), 32633: (400000, 5500000)}
 PROFILE = {'global-mercator': 'GlobalMercator', 'global-geodetic': 'GlobalGeodetic', 'local': 'LocalProfile'}
 
 
@@ -100,9 +109,9 @@ def gen_global_geodetic_layer(rng, i):
 def gen_exact_layer(rng, i):
     if rng.random() < 0.2:
         return gen_global_geodetic_layer(rng, i)
-    epsg = rng.choice([3857, 3857, 25832, 31467, 4326, 4326])
+    epsg = rng.choice([3857, 3857, 25832, 31467, 4326, 4326, 3035, 2180, 3006, 4269, 4258, 2154, 32633, 3035])
     ul = rng.choice(['ll', 'ul', 'sw', 'nw', 'ul'])
-    if epsg == 4326:
+    if epsg in LATLONG:
         tw, th = rng.choice([(4, 4), (8, 8), (8, 4), (16, 16), (5, 10)])
         n = rng.randrange(2, 6)
         base = rng.choice([Fraction(1, 8), Fraction(1, 4), Fraction(1, 2)])
@@ -129,12 +138,9 @@ def gen_exact_layer(rng, i):
                 res = [res[0] * 3, res[0]]
         x0 = Fraction(rng.randrange(-5000, 5000))
         y0 = Fraction(rng.randrange(-5000, 5000))
-        if epsg == 31467:
-            x0 += 3400000
-            y0 += 5500000
-        elif epsg == 25832:
-            x0 += 400000
-            y0 += 5500000
+        if epsg in PROJECTED_OFFSET:
+            x0 += PROJECTED_OFFSET[epsg][0]
+            y0 += PROJECTED_OFFSET[epsg][1]
         maxw = maxh = None
     sx, sy = res[0] * tw, res[0] * th
     fx, fy = res[-1] * tw, res[-1] * th
@@ -191,6 +197,11 @@ def real_layers():
                 'origin': 'nw'})
     add(4326, {'srs': 'EPSG:4326', 'bbox': [5.0, 45.0, 15.5, 55.25], 'res_factor': 1.5, 'num_levels': 6, 'origin': 'ul'})
     add(4326, {'srs': 'EPSG:4326', 'bbox': [-180, -90, 180, 90], 'tile_size': [360, 180], 'num_levels': 5}, kind='exact')
+    # axis order decided by PROJ, not by mapproxy's configured axis_order_ne / axis_order_en lists
+    add(3035, {'srs': 'EPSG:3035', 'bbox': [4000000, 2700000, 4700000, 3600000], 'res': [2000, 1000, 500], 'origin': 'nw'}, kind='exact')
+    add(2180, {'srs': 'EPSG:2180', 'bbox': [140000, 100000, 900000, 780000], 'res': [1000, 400, 100], 'tile_size': [100, 100]}, kind='exact')
+    add(4269, {'srs': 'EPSG:4269', 'bbox': [-125, 24, -66, 50], 'res': [0.25, 0.125, 0.0625], 'tile_size': [64, 64], 'origin': 'ul'}, kind='exact')
+    add(2154, {'srs': 'EPSG:2154', 'bbox': [100000, 6000000, 1300000, 7200000], 'res': [2000, 500], 'origin': 'nw'}, kind='exact')
     # global profiles (decided by SRS + bbox only) whose first level is not the single world tile: the profile hides that
     # level in the TileMap and requests are shifted by one level all the same
     add(4326, {'base': 'GLOBAL_GEODETIC', 'min_res': 0.703125, 'num_levels': 4}, kind='exact')                      # 2x1
@@ -389,7 +400,7 @@ def setup_layer(spec, tile_layer, idx):
     st.skip_first = st.default_bbox
     st.sqrt2 = spec.sqrt2
     st.ne = SRS_NE[spec.epsg]
-    st.mpu = Fraction(MPD) if spec.epsg == 4326 else Fraction(1)
+    st.mpu = Fraction(MPD) if spec.epsg in LATLONG else Fraction(1)
     st.extent = [frac(v) for v in (spec.coverage if spec.coverage else g.bbox)]
     st.extent_differs = st.extent != gc.bbox
     # tolerance (in lattice quanta) for rectangles of the realistic stream: 1e-9 of the coordinate magnitude
@@ -916,6 +927,251 @@ def run_app(R, layers, tms_origin, idx0):
         do_wmsc(R, st, wmsc.get(st.spec.name))
 
 
+# ----------------------------------------------------------------------------- pixels: content of the returned tile
+
+class FakeResponse(io.BytesIO):
+    def __init__(self, data, ctype):
+        io.BytesIO.__init__(self, data)
+        self.headers = {'Content-type': ctype, 'Content-length': str(len(data))}
+        self.code = 200
+
+
+def cell_colours(kx, ky):
+    """position code of the ground cells (kx[i], ky[j]): numpy arrays -> (h, w, 3) uint8"""
+    import numpy as np
+    arr = np.zeros((len(ky), len(kx), 3), dtype=np.uint8)
+    arr[:, :, 0] = (kx & 255)[None, :]
+    arr[:, :, 1] = (ky & 255)[:, None]
+    arr[:, :, 2] = 0x40 | (((kx >> 8) & 7) << 3)[None, :] | ((ky >> 8) & 7)[:, None]
+    return arr
+
+
+class PixelUpstream(object):
+    """Synthetic WMS upstream: the pixel of a GetMap answer whose ground cell (one pixel of the requested resolution, lattice
+    anchored at the lower-left corner of the grid bbox of the requested layer) has index (kx, ky) is coloured with
+    cell_colours(kx, ky).  Requests that are not on that lattice are recorded (no resampling is expected for tile creation)."""
+
+    def __init__(self):
+        self.grids = {}        # upstream layer name -> GridCase
+        self.requests = []
+        self.off_lattice = []
+
+    def open(self, url, data=None, method=None):
+        import numpy as np
+        from PIL import Image
+        from urllib.parse import urlsplit, parse_qsl
+        q = dict((k.lower(), v) for k, v in parse_qsl(urlsplit(url).query, keep_blank_values=True))
+        gc = self.grids[q['layers']]
+        bbox = [Fraction(float(v)) for v in q['bbox'].split(',')]
+        w, h = int(q['width']), int(q['height'])
+        self.requests.append((q['layers'], q['bbox'], w, h))
+        rx = (bbox[2] - bbox[0]) / w
+        ry = (bbox[3] - bbox[1]) / h
+        fx = (bbox[0] - gc.bbox[0]) / rx
+        fy = (bbox[3] - gc.bbox[1]) / ry
+        if rx != ry or fx.denominator != 1 or fy.denominator != 1:
+            self.off_lattice.append(url)
+        kx = int(math.floor(fx)) + np.arange(w, dtype=np.int64)
+        ky = int(math.floor(fy)) - 1 - np.arange(h, dtype=np.int64)
+        buf = io.BytesIO()
+        Image.fromarray(cell_colours(kx, ky), 'RGB').save(buf, 'PNG')
+        return FakeResponse(buf.getvalue(), 'image/png')
+
+
+def pixel_layers(ctx):
+    rng = ctx.rng
+    out = []
+
+    def add(epsg, grid, meta_size=None, meta_buffer=None):
+        out.append((LayerSpec('p%d' % len(out), epsg, grid, 'exact'), meta_size, meta_buffer))
+    # bbox not a multiple of the tile span: the top (ll) / bottom (ul) tile row sticks out of the grid bbox; default meta tiles
+    add(3857, {'srs': 'EPSG:3857', 'bbox': [0, 0, 1000, 1000], 'res': [4, 2, 1], 'tile_size': [256, 256], 'origin': 'll'})
+    add(3857, {'srs': 'EPSG:3857', 'bbox': [0, 0, 1000, 1000], 'res': [4, 2, 1], 'tile_size': [256, 256], 'origin': 'ul'})
+    add(3857, {'srs': 'EPSG:3857', 'bbox': [0, 0, 552, 856], 'res': [8, 4, 2], 'tile_size': [32, 32], 'origin': 'll'}, [2, 2], 10)
+    add(4326, {'base': 'GLOBAL_GEODETIC', 'num_levels': 3})
+    add(3857, {'srs': 'EPSG:3857', 'bbox': [0, 0, 1000, 1000], 'res': [4, 1], 'tile_size': [100, 100], 'origin': 'll'}, [3, 3], 0)
+    add(3035, {'srs': 'EPSG:3035', 'bbox': [4000000, 2700000, 4700000, 3600000], 'res': [2000, 1000, 500], 'tile_size': [64, 64],
+               'origin': 'nw'}, [2, 3], 7)
+    for _ in range(ctx.n(3, 14)):
+        tw, th = rng.choice([(32, 32), (64, 32), (50, 50), (128, 128), (20, 30)])
+        n = rng.randrange(1, 4)
+        res = [rng.choice([1, 2, 5, 10])]
+        for _k in range(n):
+            res.insert(0, res[0] * rng.choice([2, 2, 3, 5]))
+        w = res[0] * (tw * rng.randrange(1, 3) + rng.randrange(0, tw))
+        h = res[0] * (th * rng.randrange(1, 3) + rng.randrange(0, th))
+        x0, y0 = rng.randrange(-3000, 3000), rng.randrange(-3000, 3000)
+        add(rng.choice([3857, 25832, 2180]),
+            {'srs': None, 'bbox': [x0, y0, x0 + w, y0 + h], 'res': res, 'tile_size': [tw, th], 'origin': rng.choice(['ll', 'ul', 'nw', 'sw'])},
+            rng.choice([[1, 1], [2, 2], [3, 2], [4, 4]]), rng.choice([0, 5, 20, 80]))
+    for spec, _ms, _mb in out:
+        if spec.grid_conf.get('srs', '') is None:
+            spec.grid_conf['srs'] = 'EPSG:%d' % spec.epsg
+    return out
+
+
+def do_pixels(ctx):
+    """End to end without the observer: real tile manager, file cache, meta tiles, TileSplitter.  Oracle: every pixel of the
+    returned tile whose ground cell lies inside the grid bbox carries the position code of the cell that the client computes
+    for that pixel from the address (tiles: documented convention; TMS / WMTS: rectangle from the capabilities), and the same
+    ground tile through another service is the same image."""
+    import numpy as np
+    import yaml
+    from PIL import Image
+    from mapproxy.wsgiapp import make_wsgi_app
+    from mapproxy.client import http
+    from webtest import TestApp
+    rng = ctx.rng
+    layers = pixel_layers(ctx)
+    up = PixelUpstream()
+    pdefs, pterms, pdesc = [], [], []
+    conf = {'services': {'tms': {}, 'kml': {}, 'wmts': {'kvp': True, 'restful': True}}, 'layers': [], 'caches': {}, 'grids': {}, 'sources': {},
+            'globals': {'image': {'paletted': False}}}      # no colour quantisation: the position code must survive the PNG encoder
+    d = ctx.tmpdir('pixels')
+    for spec, ms, mb in layers:
+        conf['grids']['g_' + spec.name] = dict(spec.grid_conf)
+        c = {'grids': ['g_' + spec.name], 'sources': ['s_' + spec.name], 'cache': {'type': 'file', 'directory': os.path.join(d, spec.name)}}
+        if ms is not None:
+            c['meta_size'] = ms
+        if mb is not None:
+            c['meta_buffer'] = mb
+        conf['caches']['c_' + spec.name] = c
+        conf['sources']['s_' + spec.name] = {'type': 'wms', 'req': {'url': 'http://localhost:1/service', 'layers': 'u_' + spec.name}}
+        conf['layers'].append({'name': spec.name, 'title': spec.name, 'sources': ['c_' + spec.name]})
+    path = os.path.join(d, 'mapproxy.yaml')
+    with open(path, 'w') as f:
+        yaml.safe_dump(conf, f)
+    orig_open = http.HTTPClient.open
+    http.HTTPClient.open = lambda self, url, data=None, method=None: up.open(url, data, method)
+    try:
+        try:
+            app = TestApp(make_wsgi_app(path))
+        except Exception as e:  # noqa
+            ctx.fail('config:app-cannot-be-built', 'make_wsgi_app failed for a valid configuration: %r' % (e,), {'conf': conf})
+            return
+        tms_layers = app.app.handlers['tms'].layers
+        s1, _, b1, _ = get(app, Observer(), '/wmts/1.0.0/WMTSCapabilities.xml')
+        wsets, wlayers = parse_wmts(b1) if s1 == 200 else ({}, {})
+        for k, (spec, ms, mb) in enumerate(layers):
+            tl = [v for v in tms_layers.values() if v.name == spec.name][0]
+            g = tl.tile_manager.grid
+            gc = GridCase('pg%d' % k, g, extra_den=8)
+            up.grids['u_' + spec.name] = gc
+            pdefs.append(gc.definition())
+            mgrid = '(mkMG %s %d %d %d)' % ((gc.name,) + tuple(ms or (4, 4)) + (80 if mb is None else mb,))
+            rel = '%s/%s' % (spec.name, tl.md['name_path'][1])
+            hidden = 1 if tl.grid._skip_first_level else 0
+            st, _, body, _ = get(app, Observer(), '/tms/1.0.0/' + rel)
+            tmsdoc = parse_tilemap(body) if st == 200 else None
+            for l in range(len(gc.res)):
+                r = gc.res[l]
+                nx, ny = gc.grid_size(l)
+                top = 0 if gc.ul else ny - 1
+                pts = {(x, top) for x in rng.sample(range(nx), min(nx, 3))}
+                pts |= {(x, ny - 1 - top) for x in rng.sample(range(nx), min(nx, 2))}
+                pts |= {(rng.randrange(nx), rng.randrange(ny)) for _ in range(2)}
+                for x, y in sorted(pts):
+                    rect = gc.tile_rect(x, y, l)
+                    addrs = [('tiles', '/tiles/%s/%d/%d/%d.png' % (rel, l, x, y), rect)]
+                    ysw = ny - 1 - y if gc.ul else y
+                    ynw = y if gc.ul else ny - 1 - y
+                    if tmsdoc is not None:
+                        for order, upp, href in tmsdoc['sets']:
+                            ox, oy = tmsdoc['origin']
+                            rr = (ox + x * upp * gc.tw, oy + ysw * upp * gc.th, ox + (x + 1) * upp * gc.tw, oy + (ysw + 1) * upp * gc.th)
+                            if order == l - hidden and rr == rect:      # (not where finding F8 applies)
+                                addrs.append(('tms', '%s/%d/%d.png' % (path_of(href), x, ysw), rr))
+                    if spec.name in wlayers and g.name in wsets:
+                        for m in wsets[g.name]['matrices']:
+                            if int(m['id']) != l:
+                                continue
+                            cres = snap_res_list(gc.res, m['scale'] * Fraction(28, 100000) / (Fraction(MPD) if spec.epsg in LATLONG else 1))
+                            tlx, tly = (m['top'][1], m['top'][0]) if SRS_NE[spec.epsg] else m['top']
+                            if cres is not None:
+                                rr = (tlx + x * cres * m['tw'], tly - (ynw + 1) * cres * m['th'], tlx + (x + 1) * cres * m['tw'], tly - ynw * cres * m['th'])
+                                url = path_of(wlayers[spec.name]['template']).replace('{TileMatrixSet}', g.name).replace('{TileMatrix}', m['id']) \
+                                    .replace('{TileCol}', str(x)).replace('{TileRow}', str(ynw))
+                                addrs.append(('wmts', url, rr))
+                    first = None
+                    for service, url, rr in addrs:
+                        try:
+                            resp = app.get(url, expect_errors=True)
+                            status, body = resp.status_int, resp.body
+                        except Exception as e:  # noqa
+                            status, body = 'raised:' + type(e).__name__, b''
+                        dsc = {'layer': spec.describe(), 'meta_size': ms, 'meta_buffer': mb, 'service': service, 'url': url,
+                               'status': status, 'client_rectangle': [float(v) for v in rr], 'internal_tile': [x, y, l]}
+                        ctx.case(('pixels', json.dumps(spec.describe(), sort_keys=True), ms, mb, service, l, x, y), True, dsc if first is None else None)
+                        ctx.count('svc=pixels-' + service)
+                        if status != 200:
+                            ctx.fail('pixels:advertised-address-refused', '%s answers %r' % (url, status), dsc)
+                            continue
+                        try:
+                            img = np.asarray(Image.open(io.BytesIO(body)).convert('RGB'))
+                        except Exception as e:  # noqa
+                            ctx.fail('pixels:not-an-image', '%s: %r' % (url, e), dsc)
+                            continue
+                        if img.shape[:2] != (gc.th, gc.tw):
+                            ctx.fail('pixels:wrong-tile-size', '%s returned %r' % (url, img.shape), dsc)
+                            continue
+                        fx = (rr[0] - gc.bbox[0]) / r
+                        fy = (rr[3] - gc.bbox[1]) / r
+                        if fx.denominator != 1 or fy.denominator != 1:
+                            continue
+                        kx = int(fx) + np.arange(gc.tw, dtype=np.int64)
+                        ky = int(fy) - 1 - np.arange(gc.th, dtype=np.int64)
+                        want = cell_colours(kx, ky)
+                        inside = ((kx >= 0) & (kx < int((gc.bbox[2] - gc.bbox[0]) / r)))[None, :] & \
+                                 ((ky >= 0) & (ky < int((gc.bbox[3] - gc.bbox[1]) / r)))[:, None]
+                        bad = inside & np.any(img != want, axis=2)
+                        ctx.count('pixels:overhang' if not inside.all() else 'pixels:inside')
+                        if bad.any():
+                            j, i = [int(v[0]) for v in np.nonzero(bad)]
+                            dsc.update(pixel=[i, j], expected_cell=[int(kx[i]), int(ky[j])], expected_rgb=[int(v) for v in want[j, i]],
+                                       found_rgb=[int(v) for v in img[j, i]], wrong_pixels=int(bad.sum()))
+                            ctx.fail('pixels:tile-content-is-not-its-rectangle',
+                                     '%s: pixel (%d, %d) must show ground cell (%d, %d) of the rectangle %r computed for the address, '
+                                     'it shows colour %r (%d wrong pixels)' % (url, i, j, kx[i], ky[j], [float(v) for v in rr],
+                                                                              [int(v) for v in img[j, i]], int(bad.sum())), dsc)
+                        if first is None:
+                            first = img
+                            # correspondence with the meta tile model (MetaGrid.v model_pixel: meta tile bbox, tile pattern with
+                            # negative offsets at the grid border, TileSplitter): sampled pixels, where the code is unambiguous
+                            ncx, ncy = int((gc.bbox[2] - gc.bbox[0]) / r), int((gc.bbox[3] - gc.bbox[1]) / r)
+                            if ncx < 2048 and ncy < 2048 and gc.can_scale(r):
+                                edge_j = [int(v) for v in np.nonzero(inside.any(axis=1))[0][[0, -1]]] if inside.any() else []
+                                edge_i = [int(v) for v in np.nonzero(inside.any(axis=0))[0][[0, -1]]] if inside.any() else []
+                                pix = {(0, 0), (gc.tw - 1, 0), (0, gc.th - 1), (gc.tw - 1, gc.th - 1)}
+                                for jj in edge_j:
+                                    for ii in edge_i:
+                                        pix |= {(ii, jj), (ii, max(jj - 1, 0)), (ii, min(jj + 1, gc.th - 1)),
+                                                (max(ii - 1, 0), jj), (min(ii + 1, gc.tw - 1), jj)}
+                                pix |= {(rng.randrange(gc.tw), rng.randrange(gc.th)) for _ in range(3)}
+                                for ii, jj in sorted(pix):
+                                    cr, cg, cb = [int(v) for v in img[jj, ii]]
+                                    if cb & 0x80:
+                                        obs = '(Some None)'
+                                    else:
+                                        obs = '(Some (Some (%d, %d)))' % (cr | (((cb >> 3) & 7) << 8), cg | ((cb & 7) << 8))
+                                    pterms.append('(%s, %s, (%d, %d, %d), %d, %d, %s)' % (mgrid, zlit(gc.z(r)), x, y, l, ii, jj, obs))
+                                    pdesc.append(dict(dsc, pixel=[ii, jj], rgb=[cr, cg, cb]))
+                        elif not np.array_equal(first, img):
+                            ctx.fail('pixels:same-ground-tile-different-image', '%s differs from the image of %s' % (url, addrs[0][1]), dsc)
+        if up.off_lattice:
+            ctx.notes.append('pixel stage: %d upstream requests were not on the level lattice (first: %s)' % (len(up.off_lattice), up.off_lattice[0]))
+        ctx.notes.append('pixel stage: %d upstream requests' % len(up.requests))
+    finally:
+        http.HTTPClient.open = orig_open
+    return pdefs, pterms, pdesc
+
+
+def snap_res_list(res, r):
+    for lr in res:
+        if abs(lr - r) <= lr / 10 ** 9:
+            return lr
+    return None
+
+
 def corpus_layers():
     out = []
     if os.path.isdir(CORPUS):
@@ -957,14 +1213,18 @@ def run(ctx):
         real = real_layers()
         batches.append((real[:8], None))
         batches.append((real[8:15], 'nw'))
-        batches.append((real[15:20], 'sw'))
-        batches.append((real[20:], None))
+        batches.append((real[15:22], 'sw'))
+        batches.append((real[22:], None))
         idx = 0
         for specs, origin in batches:
             run_app(R, specs, origin, idx)
             idx += len(specs)
     finally:
         R.obs.remove()
+    pix = None
+    try:
+        pix = do_pixels(ctx)
+    finally:
         logging.disable(logging.NOTSET)
     hist = {}
     for f in ctx.failures:
@@ -996,5 +1256,10 @@ def run(ctx):
                    "&& (tw (sg s) =? w) && (th (sg s) =? h)", lambda i: R.wmscdoc[1][i], defs=defs)
     ctx.corr_check('wmsc_get_map', imports, 'grid * bbox * Z * Z * wmsc_result', R.wmsc[0],
                    "fun c => let '(g, b, w, h, obs) := c in wmsc_eqb (wmsc_get_map g b w h) obs", lambda i: R.wmsc[1][i], defs=defs)
+    if pix:
+        ctx.corr_check('stored_pixel', 'Grid MetaGrid', 'mgrid * Z * (Z * Z * Z) * Z * Z * option (option (Z * Z))', pix[1],
+                       "fun c => let '(m, q, t, j, k, obs) := c in "
+                       "opt_eqb (opt_eqb (pair_eqb Z.eqb Z.eqb)) (model_pixel m q HowMeta t j k) obs",
+                       lambda i: pix[2][i], defs='\n'.join(pix[0]))
     ctx.corr_check('kml_document', imports, 'tlayer * Z * Z * Z * Z * kml_doc', R.kml[0],
                    "fun c => let '(s, tol, x, y, z, obs) := c in kml_doc_close tol (kml_document s x y z) obs", lambda i: R.kml[1][i], defs=defs)
